@@ -8,7 +8,7 @@ CHECK = dict(
           "program is run again on the SAME jitter from the same registers; the outcome must equal that of a "
           "fresh single-step jitter started on the patched image. Writers: host vm.set_mem of the whole "
           "instruction or of one differing byte (first/middle/last), host set_u8/16/32, and (x86) a guest "
-          "store instruction placed earlier in the same program (same block or another block), compared "
+          "store (MOV [abs], imm8 or the string store STOSB) placed earlier in the same program (same block or another block), compared "
           "against the single-step reference of the same self-modifying program. Patched instruction first / "
           "middle / last in the program, jit_maxline in {1,2,3,50}; distinct = (arch, backend, writer, "
           "byte position, instruction position)"),
@@ -57,6 +57,25 @@ def x86_store_imm8(spec, addr, value):
     return None
 
 
+def x86_store_stos(spec, addr, value):
+    """MOV (E/R)DI, addr ; MOV AL, value ; STOSB -- a string store: lifted to several IR blocks, the
+    store sits in the head IR block and the exit of the instruction in a later one"""
+    import struct
+    if spec.mname == "x86_32":
+        return [b"\xbf" + struct.pack("<I", addr), b"\xb0" + bytes([value]), b"\xaa"]
+    if spec.mname == "x86_64":
+        return [b"\x48\xc7\xc7" + struct.pack("<I", addr), b"\xb0" + bytes([value]), b"\xaa"]
+    if spec.mname == "x86_16":
+        return [b"\xbf" + struct.pack("<H", addr), b"\xb0" + bytes([value]), b"\xaa"]
+    return None
+
+
+def guest_store(spec, form, addr, value):
+    if form == "mov":
+        return [x86_store_imm8(spec, addr, value)]
+    return x86_store_stos(spec, addr, value)
+
+
 def run_shard(params, rec):
     common.quiet()
     from vf import jitlib
@@ -96,16 +115,22 @@ def run_shard(params, rec):
             if guest:
                 # ---- the program patches itself: store placed before the patched instruction
                 j0 = diff_idx[0]
-                store = x86_store_imm8(spec, 0, 0)
+                form = rng.choice(["mov", "stos"])
+                parts = guest_store(spec, form, 0, 0)
                 where = rng.choice(["same_block", "other_block"])
                 # layout: [store][body...] ; all offsets move by len(store)
-                shift = len(store)
+                shift = sum(len(x) for x in parts)
                 target = off + shift + j0
-                store = x86_store_imm8(spec, target, new[j0])
+                parts = guest_store(spec, form, target, new[j0])
+                store = b"".join(parts)
                 sm = jitlib.Prog(spec)
                 sm.code = store + prog.code
-                sm.instrs = [(L.CODE, shift, "<store imm8 -> %x>" % target, "SELFSTORE")] + \
-                    [(o + shift, l_, t, n) for o, l_, t, n in prog.instrs]
+                sm.instrs = []
+                o_ = L.CODE
+                for x in parts:
+                    sm.instrs.append((o_, len(x), "<%s store part -> %x>" % (form, target), "SELFSTORE"))
+                    o_ += len(x)
+                sm.instrs += [(o + shift, l_, t, n) for o, l_, t, n in prog.instrs]
                 sm.end = prog.end + shift
                 sm.regs = dict(prog.regs)
                 sm.pages = []
@@ -116,18 +141,18 @@ def run_shard(params, rec):
                 # the patched instruction must not have been decoded as part of a different stream:
                 # its own bytes are unchanged except one byte, lengths are equal by construction
                 if where == "other_block":
-                    opts["jit_maxline"] = 1 if k == 0 else min(opts["jit_maxline"], max(1, k))
+                    opts["jit_maxline"] = max(1, min(opts["jit_maxline"], k + len(parts) - 1))
                 got = jitlib.run(spec, backend, sm, options=opts, max_steps=300)
                 want = jitlib.run(spec, backend, sm, options=ref_opts, max_steps=300)
                 # distinguishable? same program without the store's effect (store writes the old byte)
                 same = jitlib.Prog(spec)
                 same.__dict__.update(sm.__dict__)
-                nostore = x86_store_imm8(spec, target, old[j0])
+                nostore = b"".join(guest_store(spec, form, target, old[j0]))
                 same.code = nostore + prog.code
                 same.pages = [(a, p_, (same.code + b"\x00" * (jitlib.PAGE - len(same.code))) if n == "code" else d_, n)
                               for a, p_, d_, n in sm.pages]
                 base = jitlib.run(spec, backend, same, options=ref_opts, max_steps=300)
-                writer = "guest store (%s)" % where
+                writer = "guest %s store (%s)" % (form, where)
                 wit["prog"] = sm.describe()
             elif rng.random() < 0.5:
                 # ---- several writes on a looping program: the loop head starts a second translated block
@@ -335,7 +360,8 @@ def floors(tier, counters, evaluations):
     if len(base_writers & {"set_mem byte", "set_u8", "set_u16", "set_u32"}) < 2:
         miss.append("fewer than two partial-byte host writers exercised")
     if evaluations >= 150:
-        if not any(w.startswith("guest store") for w in writers):
+        if not any(w.startswith("guest mov store") for w in writers) or \
+                not any(w.startswith("guest stos store") for w in writers):
             miss.append("guest store writer never exercised")
         if "multi-write history" not in writers:
             miss.append("multi-write histories never compared")
